@@ -161,6 +161,7 @@ impl Prop for Interpolation {
         let nl = t.urange(1, 6);
         let (labels, src) = gen_label_lines(t, nl, false);
         let identical = n >= 2 && t.chance(0.12);
+        let mut var_scaled = false;
         let family = if t.chance(0.3) {
             let mut ids: Vec<usize> = Vec::new();
             let first = t.below(NPERTURBED + 1);
@@ -174,9 +175,27 @@ impl Prop for Interpolation {
             // one generated family in seven: the other voices differ from the base in the voicing
             // weights ONLY (same trees, means and variances)
             let msd_only = !identical && t.chance(0.15);
+            // one in twelve: the other voices are the base voice with every stream variance times 4
+            // or 8; under extrapolating weights (1+e on the base, -e on one of them) every blended variance is negative
+            var_scaled = !identical && !msd_only && n >= 2 && t.chance(0.08);
+            let scale = if t.chance(0.5) { 4.0f32 } else { 8.0 };
             for _ in 1..n {
                 v.push(if identical {
                     base.clone()
+                } else if var_scaled {
+                    let mut o = base.clone();
+                    for s in o.streams.iter_mut() {
+                        let msd = s.is_msd as usize;
+                        for tree in s.model.trees.iter_mut() {
+                            for p in tree.pdfs.iter_mut() {
+                                let half = (p.len() - msd) / 2;
+                                for x in p[half..2 * half].iter_mut() {
+                                    *x *= scale;
+                                }
+                            }
+                        }
+                    }
+                    o
                 } else if msd_only {
                     let mut o = base.clone();
                     for s in o.streams.iter_mut().filter(|s| s.is_msd) {
@@ -206,8 +225,16 @@ impl Prop for Interpolation {
         let mut w_duration = gen_weights(t, n);
         let mut w_parameter: Vec<Vec<f64>> = (0..nstreams).map(|_| gen_weights(t, n)).collect();
         let mut w_gv: Vec<Vec<f64>> = (0..nstreams).map(|_| gen_weights(t, n)).collect();
+        if var_scaled {
+            for w in w_parameter.iter_mut() {
+                // dyadic e in [0.45, 1.5]: (1+e) + (-e) is exactly 1; the further voices get 0
+                let e = t.urange(29, 96) as f64 / 64.0;
+                let k = 1 + t.below(n - 1);
+                *w = (0..n).map(|i| if i == 0 { 1.0 + e } else if i == k { -e } else { 0.0 }).collect();
+            }
+        }
         // structured boundary: every quantity on the same vertex except one or two
-        if n >= 2 && t.chance(0.25) {
+        if n >= 2 && !var_scaled && t.chance(0.25) {
             let k = t.below(n);
             let vertex: Vec<f64> = (0..n).map(|i| if i == k { 1.0 } else { 0.0 }).collect();
             let keep: Vec<usize> = (0..t.urange(1, 2)).map(|_| t.below(1 + 2 * nstreams)).collect();
@@ -403,6 +430,30 @@ impl Prop for Interpolation {
                 (None, false) => {}
                 (g, h) => fail!("interp-gv", "stream {}: GV parameters present = {} but USE_GV = {}", i, g.is_some(), h),
             }
+        }
+        // "used for synthesis": where extrapolating weights make EVERY blended variance of a stream
+        // negative, the normal equations W'PW c = W'P mu are those of the positive precisions |P|
+        // (a common sign cancels), so parameter generation from the blended Gaussians must give
+        // the trajectory it gives for the same means with the variances' magnitudes
+        for i in 0..nstreams {
+            let ms = models.model_stream(i);
+            let all_negative = !ms.stream.is_empty() && ms.stream.iter().all(|(p, _)| p.iter().all(|mv| mv.1 < -1e-12 && mv.1 > -1e12));
+            if !all_negative {
+                continue;
+            }
+            let durations: Vec<usize> = models.duration().iter().map(|mv| mv.0.round().clamp(1.0, 6.0) as usize).collect();
+            let magnitudes = jbonsai::model::StreamParameter::new(ms.stream.iter().map(|(p, w)| (p.iter().map(|mv| jbonsai::model::MeanVari(mv.0, -mv.1)).collect(), *w)).collect());
+            let thr = engine.condition.get_msd_threshold(i);
+            let blended = jbonsai::mlpg_adjust::MlpgAdjust::new(0.0, thr, jbonsai::model::ModelStream { vector_length: ms.vector_length, stream: ms.stream.clone(), gv: None, windows: ms.windows }).create(&durations);
+            let reference = jbonsai::mlpg_adjust::MlpgAdjust::new(0.0, thr, jbonsai::model::ModelStream { vector_length: ms.vector_length, stream: magnitudes, gv: None, windows: ms.windows }).create(&durations);
+            ensure!(blended.len() == reference.len(), "interp-negative-variance", "stream {}: {} vs {} frames", i, blended.len(), reference.len());
+            for (f, (a, b)) in blended.iter().zip(&reference).enumerate() {
+                for (k, (x, y)) in a.iter().zip(b).enumerate() {
+                    let ok = x == y || (x - y).abs() <= 1e-9 * x.abs().max(y.abs()).max(1e-6);
+                    ensure!(ok, "interp-negative-variance", "stream {} frame {} dim {}: parameter generation from the blended Gaussians (all variances negative under weights {:?}) gives {:e}, the normal equations of those Gaussians give {:e}", i, f, k, c.w_parameter[i], x, y);
+                }
+            }
+            rep.class("negative-variance-stream-checked");
         }
         // vertex weights reproduce the first voice alone
         let vertex = (1..n).all(|k| c.w_duration[k] == 0.0 && c.w_parameter.iter().all(|w| w[k] == 0.0) && c.w_gv.iter().all(|w| w[k] == 0.0)) && c.w_duration[0] == 1.0;
